@@ -50,6 +50,7 @@ type fakeServer struct {
 	armed   bool // faults and the trace are active (after Open)
 	trace   []string
 	unknown []string
+	other   map[string]int // catalogue queries answered with no rows
 	spPrev  bool
 }
 
@@ -229,19 +230,16 @@ func (f *fakeServer) queryMy(q string, a []string) (driver.Rows, error) {
 func (f *fakeServer) queryPG(q string, a []string) (driver.Rows, error) {
 	switch {
 	case strings.Contains(q, "server_version_num"):
-		return &frows{cols: ncols(4), data: [][]driver.Value{{"C", "C", int64(150000), "15.0"}}}, nil
+		return &frows{cols: ncols(3), data: [][]driver.Value{{"150000", "heap", nil}}}, nil
 	case strings.Contains(q, "current_setting('search_path'), set_config"):
 		return &frows{cols: ncols(2), data: [][]driver.Value{{"public", ""}}}, nil
 	case strings.Contains(q, "set_config('search_path', $1"):
 		return &frows{cols: ncols(1), data: [][]driver.Value{{"public"}}}, nil
-	case strings.Contains(q, "information_schema.schemata"), strings.Contains(q, "pg_catalog.pg_namespace"):
-		if strings.Contains(q, "nspname") && strings.Contains(q, "FROM pg_catalog.pg_namespace") || strings.Contains(q, "information_schema.schemata") {
-			return f.schemaRows(q, a, func(s *fsch) []driver.Value {
-				return []driver.Value{sname(true, s.id), nil}
-			}, 2, "CURRENT_SCHEMA()"), nil
-		}
-	}
-	if strings.Contains(q, "pg_catalog.pg_class") && strings.Contains(q, "relkind IN ('r', 'p')") || strings.Contains(q, "t3.relkind IN ('r', 'p')") {
+	case strings.Contains(q, "pg_catalog.pg_namespace ns"):
+		return f.schemaRows(q, a, func(s *fsch) []driver.Value {
+			return []driver.Value{sname(true, s.id), nil}
+		}, 2, "CURRENT_SCHEMA()"), nil
+	case strings.Contains(q, "INFORMATION_SCHEMA.TABLES AS t1") && strings.Contains(q, "t3.oid"):
 		r := &frows{cols: ncols(8)}
 		for _, s := range f.sorted() {
 			for _, x := range a {
@@ -249,41 +247,30 @@ func (f *fakeServer) queryPG(q string, a []string) (driver.Rows, error) {
 					ts := append([]int(nil), s.tabs...)
 					sort.Ints(ts)
 					for _, t := range ts {
-						r.data = append(r.data, []driver.Value{int64(1000 + 10*s.id + t), sname(true, s.id), fmt.Sprintf("t%d", t), nil, nil, nil, nil, nil})
+						r.data = append(r.data, []driver.Value{int64(1000 + 10*s.id + t), sname(true, s.id), fmt.Sprintf("t%d", t), nil, nil, nil, nil, "{}"})
 					}
 				}
 			}
 		}
 		return r, nil
-	}
-	if strings.Contains(q, "information_schema.columns") || strings.Contains(q, "pg_catalog.pg_attribute") && strings.Contains(q, "column_name") {
-		r := &frows{cols: ncols(18)}
+	case strings.Contains(q, "t1.column_name") && strings.Contains(q, "format_type"):
+		r := &frows{cols: ncols(24)}
 		for _, t := range a[1:] {
-			// table_name, column_name, data_type, formatted, is_nullable, column_default, char_max_len, num_precision, datetime_precision, num_scale, interval_type,
-			// charset, collation, identity, identity start, increment, last, generation, comment, typtype, typelem, elemtyp, oid
-			r.data = append(r.data, pgColumnRow(t))
+			row := make([]driver.Value, 24)
+			row[0], row[1], row[2], row[3], row[4] = t, "id", "integer", "integer", "NO"
+			row[20], row[23] = "b", int64(1)
+			r.data = append(r.data, row)
 		}
 		return r, nil
 	}
 	// every other catalogue query (enums, indexes, fks, checks, ...): no rows
-	if strings.HasPrefix(strings.TrimSpace(strings.ToUpper(q)), "SELECT") || strings.HasPrefix(strings.TrimSpace(strings.ToUpper(q)), "WITH") {
+	up := strings.TrimSpace(strings.ToUpper(q))
+	if strings.HasPrefix(up, "SELECT") || strings.HasPrefix(up, "WITH") {
+		f.other[strings.Join(strings.Fields(q), " ")]++
 		return &frows{cols: ncols(24)}, nil
 	}
 	f.unknown = append(f.unknown, q)
 	return nil, fmt.Errorf("fake: unexpected query %q", q)
-}
-
-var pgColN = 0
-
-func pgColumnRow(t string) []driver.Value {
-	row := make([]driver.Value, pgColN)
-	for i := range row {
-		row[i] = nil
-	}
-	if pgColN > 4 {
-		row[0], row[1], row[2], row[3], row[4] = t, "id", "integer", "integer", "NO"
-	}
-	return row
 }
 
 var stmtRe = regexp.MustCompile("(?i)^\\s*(CREATE|DROP)\\s+(TABLE|DATABASE|SCHEMA)(\\s+IF\\s+NOT\\s+EXISTS|\\s+IF\\s+EXISTS)?\\s+[`\"](\\w+)[`\"](?:\\.[`\"](\\w+)[`\"])?")
@@ -521,7 +508,10 @@ func runSrv(c *srvCase) (r srvResult) {
 	srvSeq++
 	name := fmt.Sprintf("srv%d", srvSeq)
 	srvMu.Unlock()
-	fs := &fakeServer{pg: c.pg, cur: c.bound, faults: map[int]bool{}}
+	fs := &fakeServer{pg: c.pg, cur: c.bound, faults: map[int]bool{}, other: map[string]int{}}
+	if c.pg && c.bound < 0 {
+		fs.cur = 0 // PostgreSQL: the default search_path puts unqualified names into "public" (CURRENT_SCHEMA())
+	}
 	for _, s := range c.schemas {
 		fs.schemas = append(fs.schemas, &fsch{id: s.id, tabs: append([]int(nil), s.tabs...)})
 	}
